@@ -69,6 +69,13 @@ RULES = {
                                                  "extra": ["Or(And(x == 1, y == 5), And(x == 2, y == 0))"]},
                                                 E("b", 2), A("(z) == 5"), {"s": 0, "op": "add", "cs": ["ULT(z, 2)", "Not(b)"]},
                                                 {"s": 0, "op": "satisfiable", "extra": []}, E("z", 20)],
+    # a question whose names are exactly {x, y} while x and y are still independent (CompositedCacheMixin remembers the combination
+    # of the two children under that name set; branch() copies the table): after a branch one side adds a constraint over
+    # exactly {x, y} - the other side, asked about x + y again, must not see it
+    "combined-child-then-branch-adds": [A("ULT(x, 3)"), A("SLT(y, 0)"), {"s": 0, "op": "satisfiable", "extra": ["x + ZeroExt(1, y) == 9"]},
+                                        {"s": 0, "op": "branch"}, A("x + ZeroExt(1, y) == 9", 1), E("x + ZeroExt(1, y)", 40, 0), E("x + ZeroExt(1, y)", 40, 1),
+                                        {"s": 0, "op": "branch"}, A("x ^ ZeroExt(1, y) != 0", 0), E("x ^ ZeroExt(1, y)", 40, 2), E("y", 20, 2),
+                                        {"s": 2, "op": "max", "e": "x + ZeroExt(1, y)", "signed": False, "extra": []}],
 }
 
 
@@ -92,6 +99,12 @@ def jobs_for(ctx, mult=1):
     for i in range(ctx.pick(50, 300) * mult):
         jobs.append({"cls": "SolverComposite", "cfg": {"track": i % 5 == 0, "reuse": i % 3 == 0}, "len": ctx.pick(4, 12),
                      "gen": {"shape": "exhaust-then-connect", "symv": 0.35, "calpha": L.CONSTRAINTS + weak}})
+    # two variables with range constraints of their own, ONE question whose names are exactly both (a value / an extremum of an
+    # expression over both, solution(), satisfiable() under such an extra constraint), branch (once or twice), one or two of the
+    # solvers add a constraint over exactly both, everybody is asked about expressions over both; random tail
+    for i in range(ctx.pick(40, 240) * mult):
+        jobs.append({"cls": "SolverComposite", "cfg": {"track": i % 5 == 0, "reuse": i % 3 == 0}, "len": ctx.pick(4, 12),
+                     "gen": {"shape": "span-then-branch", "symv": 0.35}})
     return jobs
 
 
@@ -119,7 +132,8 @@ def run(ctx):
                        "length <= 30 quick / 120 thorough; directed openings (pin, tie, solver-only constraints on the tied variable, no question "
                        "asked; then simplify / min / max / eval(n>1), possibly on a branch; and: range constraints per variable, each variable "
                        "enumerated completely, one weak connecting constraint - a disequality, often over a fresh third variable -, everything "
-                       "asked again) with a random tail; SolverCompositeChild: random "
+                       "asked again; and: two independent variables, ONE question spanning exactly both, branch, one or two solvers add a constraint "
+                       "over exactly both, everybody asked about expressions over both) with a random tail; SolverCompositeChild: random "
                        "histories with full trace correspondence; _split_constraints: random constraint lists, model vs real; non-trivial = >= 3 calls")
     tie_ok = True
     try:
